@@ -76,6 +76,8 @@ type Observed struct {
 	Calls   []CallRec
 	Dest    reflect.Value
 	Orders  map[*Node][][]string
+	RawMap  z.ZogIssueMap  // the containers zog returned (for the Collect / Sanitize helpers)
+	RawList z.ZogIssueList
 }
 
 // Exec runs one Parse or Validate of the real schema.
@@ -172,6 +174,7 @@ func Exec(schema z.ZogSchema, validate bool, data any, dest reflect.Value, rec *
 		panic(fmt.Sprintf("Exec: unsupported top-level schema %T", schema))
 	}
 	obs.IsList = isList
+	obs.RawMap, obs.RawList = m, l
 	obs.ByKey = map[string][]ObsIssue{}
 	if isList {
 		obs.Nil = l == nil
